@@ -730,8 +730,23 @@ func worker(args []string) {
 	inlogPath := out + ".inputs"
 	inlog, _ := os.Create(inlogPath)
 	total := int64(lib.Pick(1600, 160000))
+	stuck := 0
 	for c := int64(i); c < total; c += int64(wn) {
-		runCase(run, c, base, inlog)
+		c := c
+		if stuck >= 2 {
+			run.Count("cases_skipped_after_two_cases_that_did_not_return", 1)
+			continue
+		}
+		// a case whose stepping never returns: decided by where its goroutine sits, not by the clock
+		if finished, wedgedAt, stack := lib.Guarded(150*time.Second, func() { runCase(run, c, base, inlog) }); !finished {
+			stuck++
+			if wedgedAt != "" {
+				run.Violation("node-wedged-on-a-lock:"+wedgedAt, fmt.Sprintf("case %d: after the hostile inputs of this case the node's own processing blocks for good in the acquisition of a lock (%s); the inputs are the last lines of the input log", c, wedgedAt), map[string]interface{}{"case": c, "blocked_goroutine": stack, "last_logged_inputs": lastLines(inlogPath, 60)})
+			} else {
+				lib.WriteObservation(prop, fmt.Sprintf("case-%d-did-not-return", c), map[string]interface{}{"goroutine": stack})
+				run.Inconclusive(fmt.Sprintf("case %d did not return within the watchdog and its goroutine is not blocked on a lock", c))
+			}
+		}
 		run.ExportTo(out) // keep what was observed so far if a later case kills the process
 	}
 	inlog.Close()
@@ -765,6 +780,15 @@ func main() {
 	run.Require("heights_committed_after_burst", 400)
 	run.Require("receiver_states_reached", 8)
 	os.Exit(run.Finish())
+}
+
+func lastLines(path string, n int) []string {
+	b, _ := ioutil.ReadFile(path)
+	l := strings.Split(strings.TrimSpace(string(b)), "\n")
+	if len(l) > n {
+		l = l[len(l)-n:]
+	}
+	return l
 }
 
 func tailLines(s string, n int) string {
